@@ -247,7 +247,8 @@ def fresh_replay(prop, path):
     env['PYTHONHASHSEED'] = '1'  # deliberately another hash seed than the search used
     proc = subprocess.run([PYTHON, os.path.join(VERIF, 'check'), prop, '--replay', path],
                           capture_output=True, text=True, env=env, timeout=300)
-    return proc.returncode == 1 and 'digest_match=True' in proc.stdout, proc.stdout[-2000:] + proc.stderr[-2000:]
+    reproduced = proc.returncode == 1 and 'REPRODUCED property=' in proc.stdout and 'NOT-REPRODUCED' not in proc.stdout
+    return reproduced, 'digest_match=True' in proc.stdout, proc.stdout[-2000:] + proc.stderr[-2000:]
 
 
 def write_evidence(mod, prop, tier, base, wall, stats, violations_n, extra=None):
@@ -390,12 +391,15 @@ def run_batch(prop, tier, base, workers=None, n_cases=None, wall_s=None):
                 continue
             final = same[0].as_dict()
             path = write_replay(prop, small, final, result.digest())
-            ok, output = fresh_replay(prop, path)
+            ok, same_digest, output = fresh_replay(prop, path)
             if not ok:
-                stats['errors'].append({'error': f'replay {path} did not reproduce identically in a fresh '
-                                                 f'interpreter', 'index': None, 'trace': output})
+                stats['errors'].append({'error': f'replay {path} did not reproduce in a fresh interpreter', 'index': None,
+                                        'trace': output})
                 continue
             print(f'VIOLATION property={prop} replay={path}', flush=True)
+            if not same_digest:
+                print('  note: the violation reproduces in a fresh interpreter but the event-log digest differs: some '
+                      'nondeterminism of the code under test is outside the simulator\'s seams', flush=True)
             print(f'  rule={final["rule"]} signature={final["signature"]} occurrences={held["count"]}\n'
                   f'  {final["detail"]}', flush=True)
             reported.append(path)
